@@ -883,6 +883,26 @@ class SBytes(object):
 
     __hash__ = None
 
+    def __getitem__(self, idx):
+        ts = self.byte_terms()
+        if ts is not None and not isinstance(idx, SInt):
+            if isinstance(idx, slice):
+                if any(isinstance(x, SInt) for x in (idx.start, idx.stop, idx.step)):
+                    raise Unsupported('bytes slice with symbolic bounds')
+                return SBytes([('byte', t) for t in ts[idx]])
+            t = ts[idx]
+            return byte_to_int(t, engine().int_mode)
+        # an opaque function of the value and the subscript (only equality with itself is known)
+        E = engine()
+        n = self.length()
+        if isinstance(idx, slice) and idx.start is None and idx.stop is None and idx.step in (None, 1, -1):
+            ln = n
+        else:
+            ln = E.new_int('sub.len', 0, None)
+            E.assume(ln <= n)
+        key = tuple(a if isinstance(a, bytes) else (a[1] if isinstance(a, tuple) else a.key) for a in self.atoms)
+        return SBytes([Blob(('subscript', key, repr(idx)), ln)])
+
     def decode(self, enc='utf-8'):
         if self.is_concrete():
             return self.concrete().decode(enc)
